@@ -101,6 +101,9 @@ def check_identity_srepr(eqs):
             eb = sp.cancel(sp.together(_ev(b))).subs(var, point)
             d = sp.cancel(sp.together(ea - eb))
             if d != 0:
+                pt = refuting_point(d)
+                if pt is not None:
+                    return False, "values differ at %s == %s" % (var, point), pt
                 return False, "values differ at %s == %s: %s" % (var, point, str(d)[:300])
             continue
         a, b = item
@@ -113,8 +116,27 @@ def check_identity_srepr(eqs):
             # try harder (transcendental rewriting)
             d2 = sp.simplify(d)
             if d2 != 0:
+                pt = refuting_point(d)
+                if pt is not None:
+                    return False, "identity fails at %s" % pt, pt
                 return False, "non-zero remainder: %s" % str(sp.factor(num))[:300]
     return True, "identity"
+
+
+def refuting_point(d, tries=40):
+    """A rational point where the (claimed zero) expression is defined and non-zero, evaluated to 50 digits."""
+    import random
+    rnd = random.Random(12345)
+    syms = sorted(d.free_symbols, key=str)
+    for _ in range(tries):
+        pt = {s_: sp.Rational(rnd.randint(1, 40), rnd.randint(1, 9)) for s_ in syms}
+        try:
+            val = sp.N(d.subs(pt), 50)
+        except Exception:
+            continue
+        if val.is_number and val.is_finite and abs(val) > sp.Float("1e-25"):
+            return {str(k): str(v) for k, v in pt.items()} | {"difference": str(sp.N(val, 12))}
+    return None
 
 
 def check_poscoef(payload):
